@@ -72,6 +72,9 @@ def gen(tier, seed):
               "    sc = rdscript_from_dict({'system': rdsystem_to_dict(mk_system(0, 0, 0)), 't_sample': [0, 2.0]})",
               "    ok = ok and sc.time_step.value == 1e-3 and sc.t_max.value == 2.0 and sc.sampling_policy == 'on_t_sample' and sc.sampling_interval.value == 1 and sc.init_state_processing == 'auto'",
               "    return ok", ""])
+    add("script_times", "c12-script-times", "script_dict_times(u, tu)", ["pre: 0 <= u <= 4 and 0 <= tu <= 4"],
+        "a script dictionary whose sample times carry their own unit (min, h, ms, s, µs; the script's unit differs): the loaded times are those physical times, the default t_max is the last of them, and a further dictionary / JSON round trip keeps them",
+        "u: int, tu: int", viol="sample times written with their own unit are not read as those physical times")
     add("copy", "c12-copy", "copy_is_independent(kind, u)", ["pre: 0 <= kind <= 6 and 0 <= u <= 4"],
         "copy() of a species / reaction / network / grid / graph / system / script is an equal object that shares nothing mutable with the original: editing the copy at the top level and in nested parts leaves the original's dictionary unchanged",
         "kind: int, u: int", viol="copy() shares state with the original (or is not equal to it)")
